@@ -217,6 +217,8 @@ class Array:
                     if product(d['shape']) == 0:  # empty file/array
                         self._memmap = np.zeros(d['shape'], dtype=dtypedescr,
                                                 order=d['arrayorder'])
+                        # stand-in must honor the access mode like a memmap
+                        self._memmap.flags.writeable = (memmapmode == 'r+')
                     else:
                         self._memmap = np.memmap(filename=fd,
                                                  mode=memmapmode,
